@@ -12,4 +12,9 @@ def isortBy {α} (le : α → α → Bool) : List α → List α
 def sortInts (l : List Int) : List Int := isortBy (fun a b => decide (a ≤ b)) l
 def sortRats (l : List Rat) : List Rat := isortBy (fun a b => decide (a ≤ b)) l
 
+/-- drop repeated values, keeping the last occurrence of each (structural) -/
+def dedupInts : List Int → List Int
+  | [] => []
+  | a :: l => if l.contains a then dedupInts l else a :: dedupInts l
+
 end SkVerif
